@@ -56,7 +56,11 @@ func c17Input(k *h.Case, variant int) (string, h.Opts, string) {
 		font := []string{"1_latin_rse", "1_latin_frlg"}[k.R.IntN(2)]
 		src += "\ntext " + g.Name("TxtCc") + " { format(\"Press {UP_ARROW} {UP_ARROW} {DOWN_ARROW} {UP_ARROW} {LEFT_ARROW} {UP_ARROW} {RIGHT_ARROW} {UP_ARROW} {UP_ARROW} {DOWN_ARROW} {UP_ARROW} {UP_ARROW} {LEFT_ARROW} {UP_ARROW} {UP_ARROW} to continue {PLAYER}.\", \"" + font + "\") }\n"
 	}
-	switch variant % 9 {
+	switch variant % 10 {
+	case 9: // a font config with several fonts and no default font id, format() without a font id: whatever happens must not vary
+		o.FontPath = noDefaultFontConfig()
+		src += "\ntext " + g.Name("TxtNd") + " { format(\"Hello there my good friend, how are you doing on this fine day of spring?\") }\nscript " + g.Name("ScrNd") + " { msgbox(format(\"Another fairly long line of text that has to be wrapped somewhere, surely.\")) }\n"
+		class = "font-config-without-default"
 	case 8: // two errors that only the emitter finds, in two scripts of similar size: which one is reported must not vary
 		a, b := g.Name("TxtClashA"), g.Name("TxtClashB")
 		body := strings.Repeat("lock\nrelease\n", 1+k.R.IntN(6))
@@ -92,6 +96,21 @@ func c17Input(k *h.Case, variant int) (string, h.Opts, string) {
 		class = "no-switches"
 	}
 	return src, o, class
+}
+
+var noDefaultFontOnce sync.Once
+var noDefaultFontPath string
+
+// noDefaultFontConfig writes (once) a font config with three fonts of different widths and line lengths and no
+// defaultFontId, and returns its path.
+func noDefaultFontConfig() string {
+	noDefaultFontOnce.Do(func() {
+		dir := filepath.Join(h.VerifDir, ".work", "C17")
+		os.MkdirAll(dir, 0o755)
+		noDefaultFontPath = filepath.Join(dir, fmt.Sprintf("fonts_no_default_%d.json", os.Getpid()))
+		os.WriteFile(noDefaultFontPath, []byte(`{"fonts":{"narrow":{"widths":{"default":3},"maxLineLength":40,"numLines":2},"wide":{"widths":{"default":9},"maxLineLength":200,"numLines":3},"mid":{"widths":{"default":6},"maxLineLength":90,"numLines":2,"cursorOverlapWidth":10}}}`), 0o644)
+	})
+	return noDefaultFontPath
 }
 
 var hoistedRe = regexp.MustCompile(`[^\s,:]+_(?:Text|Movement)_\d+`)
@@ -149,7 +168,7 @@ func runC17(ctx *h.Ctx) int {
 		if class == "named-format-params" {
 			n = 60
 		}
-		if class == "unknown-font" || class == "unknown-default-font" || class == "two-duplicate-texts" || class == "two-duplicate-movements" || class == "two-emitter-errors" {
+		if class == "unknown-font" || class == "unknown-default-font" || class == "two-duplicate-texts" || class == "two-duplicate-movements" || class == "two-emitter-errors" || class == "font-config-without-default" {
 			n = 200 // map-order sensitive: a 2-entry map shows its minority order with probability 1/8 per iteration
 		}
 		for i := 0; i < n; i++ {
